@@ -83,6 +83,7 @@ type specFuncDecl struct {
 	Src    string
 	Where  string
 	Rec    bool
+	Opaque bool
 	pkg    *types.Package
 }
 
@@ -111,7 +112,7 @@ var headerRe = regexp.MustCompile(`^func\s*(\(([^)]*)\))?\s*([A-Za-z0-9_./$:\[\]
 
 var clauseKw = map[string]bool{"requires": true, "ensures": true, "modifies": true, "allocates": true, "maypanic": true,
 	"trusted": true, "onpanic": true, "loop": true, "site": true, "let": true, "oldlet": true, "noinline": true}
-var topKw = map[string]bool{"typeinv": true, "locset": true, "func": true, "pure": true, "ufunc": true, "axiom": true, "lemma": true, "ghost": true, "package": true}
+var topKw = map[string]bool{"opaque": true, "typeinv": true, "locset": true, "func": true, "pure": true, "ufunc": true, "axiom": true, "lemma": true, "ghost": true, "package": true}
 
 // readSpecLines collects the //@ lines of a file, joining continuation lines.
 func readSpecLines(path string) (pkg string, lines []string, where []string, err error) {
@@ -263,7 +264,7 @@ func parseSpecFile(path string) (*SpecFile, error) {
 			}
 			sf.Contracts = append(sf.Contracts, c)
 			cur = c
-		case "pure", "ufunc":
+		case "pure", "ufunc", "opaque":
 			fd, err := parseSpecFunc(kw, rest, w)
 			if err != nil {
 				return nil, fail("%v", err)
@@ -412,7 +413,10 @@ func parseSpecFunc(kw, rest, where string) (*specFuncDecl, error) {
 			fd.Params = append(fd.Params, SVarDecl{Name: parts[0], Type: strings.Join(parts[1:], "")})
 		}
 	}
-	if kw == "pure" {
+	if kw == "opaque" {
+		fd.Opaque = true
+	}
+	if kw == "pure" || kw == "opaque" {
 		if m[4] == "" {
 			return nil, fmt.Errorf("pure func %s needs a body", fd.Name)
 		}
